@@ -64,7 +64,7 @@ def replay_mask_state(ctx, pid, st, k, rnd):
     """One model state (shape, n, exact sample counts) against the real centre / sub-pixel mask."""
     s, n, m = st['shape'], st['arg'], st['res']
     tx, ty = rnd.choice([(0, 0), (3, -5), (1000, 77), (-10000, 4096), (10 ** 6, -3 * 10 ** 6)])
-    fr = geom.Frame(2, 1.0, float(tx), float(ty), rnd.randint(0, 5))
+    fr = geom.Frame(2, 1.0, float(tx), float(ty), rnd.randint(0, 5), ints=(k % 5 == 3))      # whole numbers as Python ints, odd whole sizes as unsigned numpy integers
     try:
         if k % 4 == 1 and geom_supported(s, 'center'):
             # built with other parameters, masked once, then assigned the wanted parameters
@@ -135,8 +135,10 @@ def geom_supported(s, mode):
         return True
     if k in ('rectangle', 'polygon'):
         return mode in ('center', 'subpixels')
-    if k in ('cannulus', 'eannulus', 'rannulus', 'compound'):
+    if k in ('cannulus', 'eannulus', 'rannulus'):
         return mode == 'center'
+    if k == 'compound':
+        return mode == 'center' and geom_supported(s['a'], mode) and geom_supported(s['b'], mode)
     return False
 
 
